@@ -656,9 +656,20 @@ func (u *Unmarshaler) processFieldNotFromString(fieldType reflect.Type, value re
 
 		return u.fillSliceFromString(fieldType, value, mapValue, fullName)
 	case valueKind == reflect.String && derefedFieldType == durationType:
-		return fillDurationValue(fieldType, value, mapValue.(string))
+		// a json.Number is of kind string as well, but is not a duration text
+		dur, ok := mapValue.(string)
+		if !ok {
+			return newTypeMismatchErrorWithHint(fullName, "duration", numberTypeString)
+		}
+
+		return fillDurationValue(fieldType, value, dur)
 	case valueKind == reflect.String && typeKind == reflect.Struct && u.implementsUnmarshaler(fieldType):
-		return u.fillUnmarshalerStruct(fieldType, value, mapValue.(string))
+		text, ok := mapValue.(string)
+		if !ok {
+			return newTypeMismatchErrorWithHint(fullName, reflect.Struct.String(), numberTypeString)
+		}
+
+		return u.fillUnmarshalerStruct(fieldType, value, text)
 	default:
 		return u.processFieldPrimitive(fieldType, value, mapValue, opts, fullName)
 	}
